@@ -112,7 +112,11 @@ def describe_outcome(out):
         return ('ok', describe_value(v))
     e = out[1]
     import re
-    return ('exc', type(e).__name__, re.sub(r' at 0x[0-9a-fA-F]+', ' at 0x?', str(e)[:200]))
+    try:
+        msg = str(e)
+    except Exception as e2:          # an exception object whose message cannot be rendered is still the outcome of the call
+        msg = '<str() of the exception raised %s>' % type(e2).__name__
+    return ('exc', type(e).__name__, re.sub(r' at 0x[0-9a-fA-F]+', ' at 0x?', msg[:200]))
 
 
 def describe_value(v):
